@@ -1086,6 +1086,10 @@ func (kcp *KCP) SetMtu(mtu int) int {
 	if mtu <= IKCP_OVERHEAD {
 		return -1
 	}
+	// segments live in pool buffers of mtuLimit bytes
+	if mtu > mtuLimit {
+		return -1
+	}
 
 	kcp.mtu = uint32(mtu)
 	kcp.mss = kcp.mtu - IKCP_OVERHEAD
